@@ -30,11 +30,14 @@ type Op struct {
 //	byzprop  N: target honest node, A: subset mask for block A, B: subset mask for block B, C: POLRound selector
 //	byzvote  N: byzantine validator selector, A: vote type/round selector, B: block selector, C: destination mask
 //	split    scripted equivocation attack by a Byzantine proposer (see Split)
+//	amnesia / stalepolka   scripted lock attacks (see Amnesia, StalePolka)
+//	lateproposal  N: victim; scripted second proposal for a round that is being committed (see LateProposal)
 
 // Stats are per-run counters used for evidence labels.
 type Stats struct {
 	Delivered, Dropped, Dups, Own, Timeouts, Crashes, Restarts int
-	ByzProposals, ByzVotes, Equivocations, Splits              int
+	ByzProposals, ByzVotes, Equivocations, Splits, StalePolkas int
+	LateProposals                                              int
 	MaxRound                                                   int64
 	Locked, Unlocked                                           bool
 	Reordered                                                  bool
@@ -258,6 +261,10 @@ func (d *Driver) Apply(op Op) bool {
 		return d.Split(op)
 	case "amnesia":
 		return d.Amnesia(op)
+	case "stalepolka":
+		return d.StalePolka(op)
+	case "lateproposal":
+		return d.LateProposal(op)
 	}
 	return false
 }
@@ -903,5 +910,455 @@ func (d *Driver) Amnesia(op Op) bool {
 	d.Stats.Splits++
 	d.Stats.Equivocations++
 	d.logf("amnesia at h%d: lockers %d, B=n%d, X=%x Y=%x", H, len(lockers), B.ID, fp(X.Hash), fp(Y.Hash))
+	return true
+}
+
+// ---------------------------------------------------------------------------------------
+// scripted attack: "stalepolka" (a lock released by the polka of an OLDER round)
+
+func voteRound(f Flight) int64 {
+	if vm, ok := f.Msg.(*pbft.VoteMessage); ok {
+		return vm.Vote.Round
+	}
+	return -1
+}
+
+// deliverUpTo delivers votes of (typ, round) addressed to n until it holds `want` of them (its own
+// included, counted from `have`); returns the number it holds afterwards.
+func (d *Driver) deliverUpTo(n *Node, typ byte, round int64, have, want int) int {
+	for have < want {
+		idx := -1
+		for i, fl := range d.Net.InFlight {
+			if fl.To == n.ID && isVoteOf(fl, typ) && voteRound(fl) == round && d.Net.Nodes[fl.From].Honest {
+				idx = i
+				break
+			}
+		}
+		if idx < 0 {
+			break
+		}
+		d.Net.Deliver(idx, false)
+		d.Stats.Delivered++
+		have++
+	}
+	return have
+}
+
+func (d *Driver) nodeOfAddr(addr []byte) int {
+	for _, n := range d.Net.Nodes {
+		if bytes.Equal(n.Addr, addr) {
+			return n.ID
+		}
+	}
+	return -1
+}
+
+// StalePolka scripts the attack that a lock released by an older round's polka enables. Round 0:
+// every honest node prevotes block A but sees only q-1 of those prevotes (plus the Byzantine nil
+// prevotes) in time, so nobody locks and everybody precommits nil; one A prevote per node stays in
+// flight. Round 1: a fresh block B gets a polka, every honest node locks B and precommits it; one
+// node (the committer) receives all precommits and commits B, the others (the victims) see +2/3 of
+// anything without a majority and move to round 2, still locked on B. Only then the delayed round-0
+// prevotes arrive and complete the polka for A at the victims. A correct node keeps its lock (the
+// polka is older than the lock); in round 2 the Byzantine validators support whatever is proposed.
+// If a victim gave up its lock, a block other than B is committed at this height: a fork.
+// Equal voting powers only; the honest nodes alone must hold more than two thirds.
+func (d *Driver) StalePolka(op Op) bool {
+	net := d.Net
+	hs := d.honestAlive()
+	bs := d.byz()
+	N := len(net.Nodes)
+	f := len(bs)
+	for _, p := range net.Cfg.Powers {
+		if p != net.Cfg.Powers[0] {
+			return false
+		}
+	}
+	q := N*2/3 + 1
+	if f == 0 || len(hs) != N-f || len(hs) < q || len(hs) < 3 || len(hs)-1+f < q {
+		return false
+	}
+	var top int64
+	for _, n := range hs {
+		if hh := n.RS().Height; hh > top {
+			top = hh
+		}
+	}
+	if top > 1 {
+		d.RunFair(top-1, 3000)
+	}
+	for i := 0; i < 400 && (len(net.InFlight) > 0 || func() bool {
+		for _, n := range hs {
+			if len(n.Own) > 0 {
+				return true
+			}
+		}
+		return false
+	}()); i++ {
+		d.FairStep()
+	}
+	H := hs[0].RS().Height
+	for _, n := range hs {
+		rs := n.RS()
+		if rs.Height != H || rs.Step != pbft.RoundStepNewHeight {
+			return false
+		}
+	}
+	vals := hs[0].RS().Validators
+	proposerAt := func(r int) int {
+		c := vals.Copy()
+		if r > 0 {
+			c.IncrementAccum(int64(r))
+		}
+		return d.nodeOfAddr(c.Proposer().Address)
+	}
+	p0, p1, p2 := proposerAt(0), proposerAt(1), proposerAt(2)
+	if p0 < 0 || p1 < 0 || p2 < 0 {
+		return false
+	}
+	// the committer must not be the proposer of round 2 (it will have left the height)
+	rot := mod(op.A, len(hs))
+	order := append(append([]*Node{}, hs[rot:]...), hs[:rot]...)
+	var C *Node
+	for _, n := range order {
+		if n.ID != p2 {
+			C = n
+			break
+		}
+	}
+	var victims []*Node
+	for _, n := range hs {
+		if n != C {
+			victims = append(victims, n)
+		}
+	}
+	isData := func(fl Flight) bool {
+		switch fl.Msg.(type) {
+		case *pbft.ProposalMessage, *pbft.BlockPartMessage:
+			return true
+		}
+		return false
+	}
+	// propose lets the proposer of a round make its proposal; returns the id and the parts
+	propose := func(pid int, round int64, tag string, to []*Node, ref *Node) (types.BlockID, *types.PartSet, bool) {
+		if net.Nodes[pid].Honest {
+			net.Nodes[pid].Pool.Push(types.Tx(fmt.Sprintf("stalepolka-%s-%d", tag, H)))
+			d.ownAll(net.Nodes[pid])
+			rs := net.Nodes[pid].RS()
+			if rs.ProposalBlock == nil || rs.ProposalBlockParts == nil || rs.Round != round {
+				return types.BlockID{}, nil, false
+			}
+			return types.BlockID{Hash: rs.ProposalBlock.Hash(), PartsHeader: rs.ProposalBlockParts.Header()}, rs.ProposalBlockParts, true
+		}
+		st := ref.CS.GetState()
+		var lc *types.Commit
+		if H > 1 {
+			lc = ref.RS().LastCommit.MakeCommit()
+		}
+		blk, parts := MakeBlock(st, lc, pid, []types.Tx{types.Tx(fmt.Sprintf("stalepolka-%s-%d", tag, H))}, net.Cfg.PartSize)
+		for _, m := range ProposalMsgs(pid, H, round, parts, -1, types.BlockID{}) {
+			for _, n := range to {
+				net.Send(pid, n.ID, m)
+			}
+		}
+		return types.BlockID{Hash: blk.Hash(), PartsHeader: parts.Header()}, parts, true
+	}
+	// ---- round 0: A, no lock anywhere, one A prevote per node held back
+	for _, n := range hs {
+		d.fireNewest(n)
+	}
+	A, partsA, ok := propose(p0, 0, "a", hs, hs[0])
+	if !ok {
+		return false
+	}
+	d.learn(A)
+	d.deliverWhere(isData)
+	for _, n := range hs {
+		d.ownAll(n)
+	}
+	for _, n := range hs {
+		d.deliverUpTo(n, types.VoteTypePrevote, 0, 1, q-1)
+		for _, b := range bs {
+			net.Inject(n.ID, b.ID, &pbft.VoteMessage{Vote: SignVote(b.ID, vals, H, 0, types.VoteTypePrevote, types.BlockID{})})
+		}
+		if n.RS().Step == pbft.RoundStepPrevoteWait {
+			d.fireNewest(n)
+		}
+	}
+	for _, n := range hs {
+		d.ownAll(n) // precommit nil
+		if n.RS().LockedBlock != nil {
+			return false
+		}
+	}
+	d.deliverWhere(func(fl Flight) bool { return isVoteOf(fl, types.VoteTypePrecommit) && voteRound(fl) == 0 })
+	for _, n := range hs {
+		if rs := n.RS(); rs.Height != H || rs.Round != 1 {
+			return false // script derailed
+		}
+	}
+	// ---- round 1: B, everybody locks; the committer commits, the victims move on
+	B, _, ok := propose(p1, 1, "b", hs, hs[0])
+	if !ok || bytes.Equal(B.Hash, A.Hash) {
+		return false
+	}
+	d.learn(B)
+	d.deliverWhere(isData)
+	for _, n := range hs {
+		d.ownAll(n)
+	}
+	d.deliverWhere(func(fl Flight) bool { return isVoteOf(fl, types.VoteTypePrevote) && voteRound(fl) == 1 })
+	for _, n := range hs {
+		d.ownAll(n)
+		if rs := n.RS(); rs.LockedBlock == nil || !rs.LockedBlock.HashesTo(B.Hash) {
+			return false
+		}
+	}
+	d.Stats.Locked = true
+	d.deliverWhere(func(fl Flight) bool {
+		return fl.To == C.ID && isVoteOf(fl, types.VoteTypePrecommit) && voteRound(fl) == 1
+	})
+	for _, n := range victims {
+		d.deliverUpTo(n, types.VoteTypePrecommit, 1, 1, q-1)
+		for _, b := range bs {
+			net.Inject(n.ID, b.ID, &pbft.VoteMessage{Vote: SignVote(b.ID, vals, H, 1, types.VoteTypePrecommit, types.BlockID{})})
+		}
+		if n.RS().Step == pbft.RoundStepPrecommitWait {
+			d.fireNewest(n)
+		}
+	}
+	for i := 0; i < len(net.InFlight); {
+		if fl := net.InFlight[i]; isVoteOf(fl, types.VoteTypePrecommit) && voteRound(fl) == 1 && in(net.Nodes[fl.To], victims) {
+			net.Drop(i)
+			continue
+		}
+		i++
+	}
+	for _, n := range victims {
+		if rs := n.RS(); rs.Height != H || rs.Round != 2 || rs.LockedBlock == nil {
+			return false
+		}
+	}
+	// ---- the delayed round-0 prevotes reach (some of) the victims
+	late := victims
+	if op.B%4 == 3 {
+		late = victims[:1+mod(op.B/4, len(victims))]
+	}
+	d.deliverWhere(func(fl Flight) bool {
+		return isVoteOf(fl, types.VoteTypePrevote) && voteRound(fl) == 0 && in(net.Nodes[fl.To], late)
+	})
+	d.Stats.Reordered = true
+	// ---- round 2: the Byzantine validators support whatever is on the table
+	var P types.BlockID
+	if net.Nodes[p2].Honest {
+		P, _, ok = propose(p2, 2, "c", victims, victims[0])
+		if !ok {
+			d.Stats.Splits++
+			return true
+		}
+	} else if op.C%2 == 0 {
+		// the old block A again, claiming its round-0 polka
+		for _, m := range ProposalMsgs(p2, H, 2, partsA, 0, A) {
+			for _, n := range victims {
+				net.Send(p2, n.ID, m)
+			}
+		}
+		P = A
+	} else {
+		P, _, _ = propose(p2, 2, "c", victims, victims[0])
+	}
+	d.learn(P)
+	d.deliverWhere(func(fl Flight) bool { return isData(fl) && in(net.Nodes[fl.To], victims) })
+	for _, n := range victims {
+		d.ownAll(n)
+	}
+	v2 := victims[0].RS().Validators
+	for _, b := range bs {
+		for _, typ := range []byte{types.VoteTypePrevote, types.VoteTypePrecommit} {
+			v := SignVote(b.ID, v2, H, 2, typ, P)
+			for _, n := range victims {
+				net.Send(b.ID, n.ID, &pbft.VoteMessage{Vote: v})
+			}
+		}
+	}
+	d.deliverWhere(func(fl Flight) bool {
+		return isVoteOf(fl, types.VoteTypePrevote) && voteRound(fl) == 2 && in(net.Nodes[fl.To], victims)
+	})
+	for _, n := range victims {
+		if n.RS().Step == pbft.RoundStepPrevoteWait {
+			d.fireNewest(n)
+		}
+		d.ownAll(n)
+	}
+	d.deliverWhere(func(fl Flight) bool {
+		return isVoteOf(fl, types.VoteTypePrecommit) && voteRound(fl) == 2 && in(net.Nodes[fl.To], victims)
+	})
+	d.Stats.Splits++
+	d.Stats.StalePolkas++
+	d.logf("stalepolka at h%d: committer n%d, A=%x B=%x round-2 proposal %x by n%d", H, C.ID, fp(A.Hash), fp(B.Hash), fp(P.Hash), p2)
+	return true
+}
+
+// ---------------------------------------------------------------------------------------
+// scripted attack: "lateproposal" (a second proposal for the round a node is committing)
+
+// quiesceAtNewHeight brings every live honest node to the NewHeight step of one height with
+// nothing in flight; returns that height.
+func (d *Driver) quiesceAtNewHeight() (int64, bool) {
+	net := d.Net
+	hs := d.honestAlive()
+	if len(hs) == 0 {
+		return 0, false
+	}
+	var top int64
+	for _, n := range hs {
+		if hh := n.RS().Height; hh > top {
+			top = hh
+		}
+	}
+	if top > 1 {
+		d.RunFair(top-1, 3000)
+	}
+	for i := 0; i < 400 && (len(net.InFlight) > 0 || func() bool {
+		for _, n := range hs {
+			if len(n.Own) > 0 {
+				return true
+			}
+		}
+		return false
+	}()); i++ {
+		d.FairStep()
+	}
+	H := hs[0].RS().Height
+	for _, n := range hs {
+		rs := n.RS()
+		if rs.Height != H || rs.Step != pbft.RoundStepNewHeight {
+			return 0, false
+		}
+	}
+	return H, true
+}
+
+// LateProposal scripts a Byzantine proposer that shows its block X to everybody except one honest
+// node (the victim). The victim sees the polka and the +2/3 precommits for X without ever having
+// seen a proposal: it enters the commit step of that round with an empty part set for X and waits
+// for the parts. Only then the proposer sends the victim a second, validly signed proposal for the
+// same height and round naming another block Y (and, optionally, Y's parts). A node in the commit
+// step must not care; catch-up gossip then brings X's parts and the victim commits X.
+// N selects the victim, A%2 == 1 also sends Y's parts, A/2%2 == 1 sends the proposal twice.
+func (d *Driver) LateProposal(op Op) bool {
+	net := d.Net
+	bs := d.byz()
+	N := len(net.Nodes)
+	for _, p := range net.Cfg.Powers {
+		if p != net.Cfg.Powers[0] {
+			return false
+		}
+	}
+	if len(bs) == 0 || N < 4 || len(d.honestAlive()) != N-len(bs) {
+		return false
+	}
+	// find a height whose round-0 proposer is Byzantine
+	var H int64
+	pid := -1
+	for try := 0; try <= N+1; try++ {
+		hh, ok := d.quiesceAtNewHeight()
+		if !ok || hh > d.MaxHeight {
+			return false
+		}
+		p := d.nodeOfAddr(d.honestAlive()[0].RS().Validators.Proposer().Address)
+		if p >= 0 && !net.Nodes[p].Honest {
+			H, pid = hh, p
+			break
+		}
+		if !d.RunFair(hh, 4000) {
+			return false
+		}
+	}
+	if pid < 0 {
+		return false
+	}
+	hs := d.honestAlive()
+	V := hs[mod(op.N, len(hs))]
+	var others []*Node
+	for _, n := range hs {
+		if n != V {
+			others = append(others, n)
+		}
+	}
+	vals := V.RS().Validators
+	st := others[0].CS.GetState()
+	var lc *types.Commit
+	if H > 1 {
+		lc = others[0].RS().LastCommit.MakeCommit()
+	}
+	blkX, partsX := MakeBlock(st, lc, pid, []types.Tx{types.Tx(fmt.Sprintf("lateproposal-x-%d", H))}, net.Cfg.PartSize)
+	X := types.BlockID{Hash: blkX.Hash(), PartsHeader: partsX.Header()}
+	blkY, partsY := MakeBlock(st, lc, pid, []types.Tx{types.Tx(fmt.Sprintf("lateproposal-y-%d", H))}, net.Cfg.PartSize)
+	Y := types.BlockID{Hash: blkY.Hash(), PartsHeader: partsY.Header()}
+	d.learn(X)
+	d.learn(Y)
+	for _, n := range hs {
+		d.fireNewest(n) // NewHeight -> Propose
+	}
+	for _, m := range ProposalMsgs(pid, H, 0, partsX, -1, types.BlockID{}) {
+		for _, n := range others {
+			net.Send(pid, n.ID, m)
+		}
+	}
+	d.deliverWhere(func(fl Flight) bool {
+		switch fl.Msg.(type) {
+		case *pbft.ProposalMessage, *pbft.BlockPartMessage:
+			return true
+		}
+		return false
+	})
+	if V.RS().Step == pbft.RoundStepPropose {
+		d.fireNewest(V) // propose timeout: prevote nil
+	}
+	for _, n := range hs {
+		d.ownAll(n)
+	}
+	for _, b := range bs {
+		v := SignVote(b.ID, vals, H, 0, types.VoteTypePrevote, X)
+		for _, n := range hs {
+			net.Send(b.ID, n.ID, &pbft.VoteMessage{Vote: v})
+		}
+	}
+	d.deliverWhere(func(fl Flight) bool { return isVoteOf(fl, types.VoteTypePrevote) && voteRound(fl) == 0 })
+	for _, n := range hs {
+		if n.RS().Step == pbft.RoundStepPrevoteWait {
+			d.fireNewest(n)
+		}
+		d.ownAll(n)
+	}
+	for _, b := range bs {
+		v := SignVote(b.ID, vals, H, 0, types.VoteTypePrecommit, X)
+		for _, n := range hs {
+			net.Send(b.ID, n.ID, &pbft.VoteMessage{Vote: v})
+		}
+	}
+	// the victim first
+	d.deliverWhere(func(fl Flight) bool {
+		return fl.To == V.ID && isVoteOf(fl, types.VoteTypePrecommit) && voteRound(fl) == 0
+	})
+	rs := V.RS()
+	if rs.Height != H || rs.Step != pbft.RoundStepCommit || rs.Proposal != nil || rs.ProposalBlock != nil {
+		return false // script derailed (the victim is not waiting for X's parts)
+	}
+	// ---- the second proposal
+	msgs := ProposalMsgs(pid, H, 0, partsY, -1, types.BlockID{})
+	times := 1 + (op.A/2)%2
+	for i := 0; i < times; i++ {
+		net.Inject(V.ID, pid, msgs[0])
+	}
+	if op.A%2 == 1 {
+		for _, m := range msgs[1:] {
+			net.Inject(V.ID, pid, m)
+		}
+	}
+	d.Stats.LateProposals++
+	d.Stats.ByzProposals++
+	d.logf("lateproposal at h%d: victim n%d, proposer n%d, X=%x Y=%x", H, V.ID, pid, fp(X.Hash), fp(Y.Hash))
 	return true
 }
